@@ -239,6 +239,25 @@ func TestC10(t *testing.T) {
 		}
 		return c
 	}, c10Run)
+	ev.Fixed(t, "c10_big_distinct", func(do func(int) bool) {
+		if ev.Cfg.Shard == 1%ev.Cfg.NShards {
+			do(300000 + int(ev.Cfg.Seed%1000))
+		}
+	}, func(n int) error {
+		words := make([]string, n)
+		for i := range words {
+			words[i] = fmt.Sprintf("w%07d", i)
+		}
+		wl, err := spg.NewWordList(words)
+		if err != nil {
+			return err
+		}
+		if int(wl.Size()) != n {
+			return fmt.Errorf("NewWordList of %d distinct words keeps %d", n, wl.Size())
+		}
+		ev.NonTrivial(fmt.Sprintf("bigdistinct|%d", n))
+		return nil
+	})
 	ev.Fixed(t, "c10_shipped_slices", func(do func(c10Shipped) bool) {
 		if ev.Cfg.Shard != 0 {
 			return
